@@ -296,6 +296,9 @@ func (r *FnRun) exec(st *State, fr *frame, b *ssa.BasicBlock, i int) {
 		case *ssa.Call:
 			r.doCall(st, fr, x, &x.Call, func(st2 *State, res *V) {
 				st2.regs[x] = res
+				if fr.top {
+					r.countFailure(st2, &x.Call, res)
+				}
 				r.exec(st2, fr, b, i+1)
 			})
 			return
@@ -1199,18 +1202,28 @@ type modset struct {
 	fams  map[string]bool
 	all   bool
 	events bool
+	failKeys map[string]bool // callees called directly in the blocks (failedCalls counters)
 }
 
 func newModset() *modset { return &modset{cells: map[*ssa.Alloc]bool{}, fams: map[string]bool{}} }
 
 func (r *FnRun) modsetBlocks(fn *ssa.Function, blocks map[*ssa.BasicBlock]bool) *modset {
 	ms := newModset()
+	ms.failKeys = map[string]bool{}
 	for _, b := range fn.Blocks {
 		if blocks != nil && !blocks[b] {
 			continue
 		}
 		for _, ins := range b.Instrs {
 			r.modsetInstr(ms, ins, 0)
+			if call, ok := ins.(*ssa.Call); ok && fn == r.fn {
+				if name := r.calleeName(&call.Call); name != "" {
+					if ms.failKeys == nil {
+						ms.failKeys = map[string]bool{}
+					}
+					ms.failKeys[name] = true
+				}
+			}
 		}
 	}
 	return ms
@@ -1501,6 +1514,7 @@ func (r *FnRun) applyHavoc(st *State, ms *modset) {
 	if ms.events || ms.all {
 		st.eventsAdvance()
 	}
+	r.havocFailureCounts(st, ms.failKeys)
 	st.bumpAlloc()
 	// nothing known about nil-ness of previously checked terms is lost; keep st.nonNil
 }
@@ -1715,13 +1729,24 @@ func (r *FnRun) atCut(st *State, fr *frame, b *ssa.BasicBlock, i int, ins ssa.In
 		ords[k] = v
 	}
 	if prev, done := r.cutDone[ins]; done {
+		after := func(callee string) bool {
+			// does the callee have a call site after the cut (in source order)?
+			for _, b := range r.fn.Blocks {
+				for _, i2 := range b.Instrs {
+					if call, ok := i2.(ssa.CallInstruction); ok && i2.Pos() > ins.Pos() && r.calleeName(call.Common()) == callee {
+						return true
+					}
+				}
+			}
+			return false
+		}
 		for _, c := range r.fc.Clauses {
-			if c.Kind == "atcall" && prev["atcall:"+c.Name] != ords["atcall:"+c.Name] {
+			if c.Kind == "atcall" && after(c.Name) && prev["atcall:"+c.Name] != ords["atcall:"+c.Name] {
 				r.errs = append(r.errs, fmt.Sprintf("%s: %s: paths disagree on the ordinal of %s", r.relName, anchor, c.Name))
 			}
 		}
 		for _, g := range r.fc.Ghosts {
-			if g.Callee != "" && prev[g.Callee] != ords[g.Callee] {
+			if g.Callee != "" && after(g.Callee) && prev[g.Callee] != ords[g.Callee] {
 				r.errs = append(r.errs, fmt.Sprintf("%s: %s: paths disagree on the ordinal of %s", r.relName, anchor, g.Callee))
 			}
 		}
@@ -1757,6 +1782,7 @@ func (r *FnRun) genericState(st *State) *State {
 	g.eventsAdvance()
 	g.ctxDoneAdvance()
 	g.bumpAlloc()
+	r.havocFailureCounts(g, nil)
 	type kv struct {
 		k ssa.Value
 		n string
@@ -1845,4 +1871,93 @@ func (r *FnRun) paramSpill(a *ssa.Alloc) *ssa.Parameter {
 		}
 	}
 	return p
+}
+
+
+// ---- failedCalls: per-activation count of direct calls that returned a non-nil error ----
+
+// errResult: the error-typed last result of a call's value, or nil.
+func errResult(c *ssa.CallCommon, res *V) *V {
+	sig := c.Signature()
+	n := sig.Results().Len()
+	if n == 0 || res == nil {
+		return nil
+	}
+	last := sig.Results().At(n - 1).Type()
+	if types.TypeString(last, nil) != "error" {
+		return nil
+	}
+	if n == 1 {
+		if res.K == KIface {
+			return res
+		}
+		return nil
+	}
+	if res.K == KTuple && len(res.F) == n && res.F[n-1].K == KIface {
+		return res.F[n-1]
+	}
+	return nil
+}
+
+func (r *FnRun) countFailure(st *State, c *ssa.CallCommon, res *V) {
+	e := errResult(c, res)
+	if e == nil {
+		return
+	}
+	name := r.calleeName(c)
+	if name == "" {
+		return
+	}
+	key := "fail:" + name
+	cur, ok := st.ghost[key]
+	if !ok {
+		cur = "0"
+	}
+	nw := sIte(sEq(e.Tag, "0"), cur, "(+ "+cur+" 1)")
+	if len(nw) > 120 {
+		n := r.fresh("fail", "Int")
+		st.assume(sEq(n, nw))
+		nw = n
+	}
+	st.ghost[key] = nw
+}
+
+// failKeys: callee names with a call site in the function under verification whose last result is an error.
+func (r *FnRun) failKeys() []string {
+	if r.failKeysDone {
+		return r.failKeyList
+	}
+	r.failKeysDone = true
+	seen := map[string]bool{}
+	for _, b := range r.fn.Blocks {
+		for _, ins := range b.Instrs {
+			call, ok := ins.(*ssa.Call)
+			if !ok {
+				continue
+			}
+			sig := call.Call.Signature()
+			n := sig.Results().Len()
+			if n == 0 || types.TypeString(sig.Results().At(n-1).Type(), nil) != "error" {
+				continue
+			}
+			if name := r.calleeName(&call.Call); name != "" && !seen[name] {
+				seen[name] = true
+				r.failKeyList = append(r.failKeyList, name)
+			}
+		}
+	}
+	sort.Strings(r.failKeyList)
+	return r.failKeyList
+}
+
+// havocFailureCounts: at a loop head or cut point nothing is known about the counts (invariants restate it).
+func (r *FnRun) havocFailureCounts(st *State, only map[string]bool) {
+	for _, name := range r.failKeys() {
+		if only != nil && !only[name] {
+			continue
+		}
+		n := r.fresh("fail", "Int")
+		st.assume("(>= " + n + " 0)")
+		st.ghost["fail:"+name] = n
+	}
 }
